@@ -357,7 +357,40 @@ def strip_volatile(d):
     return d
 
 
-def provider_history(ctx, rng, reb, kind, n, rich, how="context"):
+# one history that puts every clause of the property on both sides of every crash point: pending code, used
+# code, live / revoked / expired tokens, usage counter, refresh chain, registered client + its registration
+# token, pending and consumed pushed request, seen and unseen client-assertion ids
+MATRIX = [
+    ("authz", "diana", "client_1", ["openid", "email", "offline_access"], "code"),        # 0: code 0
+    ("authz", "babs", "client_2", ["openid", "offline_access"], "code"),                  # 1: code 1
+    ("register", 0),                                                                      # 2
+    ("par", "client_1", ["openid", "email"]),                                             # 3: request_uri 0
+    ("token", ("tok", 0), "client_1", None, "client_1"),                                  # 4: tokens 2,3,4
+    ("token", ("tok", 1), "client_2", 1, "client_2"),                                     # 5: tokens 5,6,7 (assertion id 1)
+    ("refresh", ("tok", 6), "client_2", None, 1),                                         # 6: replayed assertion id
+    ("authz_par", 0, "diana", "client_1"),                                                # 7: code 8
+    ("authz_par", 0, "babs", "client_1"),                                                 # 8: consumed request_uri
+    ("regread", 0),                                                                       # 9
+    ("authz", "diana", ("dyn", 0), ["openid"], "code"),                                   # 10: code 9
+    ("token", ("tok", 9), ("dyn", 0), None, ("dyn", 0)),                                  # 11: tokens 10,11
+    ("refresh", ("tok", 3), "client_1", None, None),                                      # 12: tokens 12,13,14
+    ("revoke", ("tok", 2), "client_1", None),                                             # 13
+    ("introspect", ("tok", 2), "client_1"),                                               # 14
+    ("userinfo", ("tok", 2)),                                                             # 15: revoked
+    ("userinfo", ("tok", 5)),                                                             # 16: live
+    ("refresh", ("tok", 6), "client_2", None, 2),                                         # 17: fresh assertion id
+    ("userinfo", ("tok", 12)),                                                            # 18: live, from the refresh chain
+    ("refresh", ("tok", 3), "client_1", None, None),                                      # 19: rotated-away / reused refresh token
+    ("token", ("tok", 0), "client_1", None, "client_1"),                                  # 20: used code
+    ("userinfo", ("tok", 12)),                                                            # 21
+    ("tick", 601),                                                                        # 22
+    ("userinfo", ("tok", 5)),                                                             # 23: expired
+    ("introspect", ("tok", 6), "client_1"),                                               # 24
+    ("token", ("tok", 8), "client_1", None, "client_1"),                                  # 25: code from the pushed request, expired
+]
+
+
+def provider_history(ctx, rng, reb, kind, n, rich, how="context", fixed=None):
     import srv, srv_c13
     clock = reb.clock
     clock.now = 1_700_000_000
@@ -366,8 +399,8 @@ def provider_history(ctx, rng, reb, kind, n, rich, how="context"):
     hist, outs, snaps = [], [], []
     jti_ctr = []
     rec = {"kind": kind, "how": how, "history": hist, "outs": outs}
-    for _ in range(n):
-        op = next_op(rng, A, jti_ctr, rich)
+    for step in range(len(fixed) if fixed else n):
+        op = fixed[step] if fixed else next_op(rng, A, jti_ctr, rich)
         hist.append(op)
         outs.append(A.run(op))
         js, alt = export(A.server, how)
@@ -756,6 +789,8 @@ def run(ctx):
                  ({"jwt_access": False, "pin": "key"}, "context", True), ({"jwt_access": False, "pin": "keyfile"}, "context", True),
                  ({"jwt_access": False, "pin": "pwsalt"}, "session_manager", False)]
         reps = 2 if q else 30
+        for kind in (kinds[0][0], kinds[1][0]):
+            live += harvest_live(provider_history(ctx, rng, reb, kind, 0, True, "context", fixed=MATRIX))[:40]
         for kind, how, rich in kinds:
             for r in range(reps):
                 P = provider_history(ctx, rng, reb, kind, rng.randint(8, 14) if q else rng.randint(10, 24), rich, how)
